@@ -19,6 +19,8 @@ var c07Books = []absBook{
 
 // "k" is a recipe whose name is a path-prefix of k/r1 and k/r2; "u" of u/v
 var c07Foods = []string{"k/r1", "k/r2", "r0", "u/a&b <c>'d'+e \"f\" 1.5", "cal", "k", "u"}
+// the large log also has names with empty path segments ("k/" is a sibling of "k/r1" below "k", not "k" itself)
+var c07FoodsLarge = append(append([]string{}, c07Foods...), "k/", "/k", "k//r1", "Ünï/код/")
 var c07Qty = []float64{1, -2, 0.5}
 
 func dec(s string) *big.Rat {
@@ -63,7 +65,7 @@ func checkC07(w *Worker) {
 				for d := 0; d < 60; d++ {
 					day := absDay{Date: fmt.Sprintf("2021/%02d/%02d", 1+d/28, 1+d%28)}
 					for e := 0; e < 9+d%4; e++ {
-						day.Entries = append(day.Entries, absIng{c07Foods[(d+e*3)%len(c07Foods)], c07Qty[(d+e)%len(c07Qty)]})
+						day.Entries = append(day.Entries, absIng{c07FoodsLarge[(d+e*3)%len(c07FoodsLarge)], c07Qty[(d+e)%len(c07Qty)]})
 						if e%4 == 1 {
 							day.Entries = append(day.Entries, absIng{fmt.Sprintf("bulk/%d/%d", d%7, e), 1})
 						}
